@@ -414,7 +414,11 @@ Definition parse_decl_with_g (chk : rtype -> branches -> res unit) (tbl : ftable
         end) (fun '(t, first) =>
   bind (collect (parse_branch_g t tbl) (d_rest d)) (fun rest =>
   let bs := first ++ rest in
-  bind (chk t bs) (fun _ => Ok (t, bs)))).
+  (* a declared type and no branch at all: `["u8"]` is an empty range (checked once the branches were read) *)
+  match bs with
+  | [] => Err EmptyRange
+  | _ => bind (chk t bs) (fun _ => Ok (t, bs))
+  end)).
 End Strict.
 
 Definition parse_num := parse_num_g true.
